@@ -143,6 +143,7 @@ type c10Case struct {
 	shadow map[string]string // data key -> hex value last written successfully
 	preSh  map[string]string // shadow before the last operation (what a crash before its last write must preserve)
 	lastOp string
+	hist   []string // the operations of the case so far (quoted in violation messages: a concrete failing history)
 	rots   int  // successful rotations so far: a new record must carry a term >= 1 + rots
 	lastT  uint32 // term of the previous record written by the active node (terms never go backwards)
 	dead    bool // a panic left the lock of a barrier held (any further call would hang): the case is abandoned
@@ -464,6 +465,55 @@ func c10Err(err error) string {
 	return "err:other:" + vh.HexS(msg)
 }
 
+// storedTerms: term -> key bytes of the stored keyring, opened independently (nil when there is none / it does not open)
+func (c *c10Case) storedTerms(data map[string][]byte) map[uint32][]byte {
+	v, ok := data[c.pfx+KeyringPath]
+	if !ok {
+		return nil
+	}
+	n := c.physRootName(data)
+	if n == "" || n == "?" {
+		return nil
+	}
+	pt, ok := c10Open(c.named[n], c.pfx+KeyringPath, v)
+	if !ok {
+		return nil
+	}
+	kr, err := DeserializeKeyring(pt)
+	if err != nil {
+		return nil
+	}
+	out := map[uint32][]byte{}
+	for t, k := range kr.keys {
+		out[t] = append([]byte(nil), k.Value...)
+	}
+	return out
+}
+
+// c10PrefixDiff: "" when kr holds exactly the terms 1..active, each with the stored key of that term
+func c10PrefixDiff(kr *Keyring, ref map[uint32][]byte) string {
+	if kr == nil {
+		return ""
+	}
+	for t := uint32(1); t <= kr.activeTerm; t++ {
+		k, ok := kr.keys[t]
+		if !ok {
+			return fmt.Sprintf("term %d is missing below its active term %d", t, kr.activeTerm)
+		}
+		r, ok := ref[t]
+		if !ok {
+			return fmt.Sprintf("term %d is not in the stored keyring", t)
+		}
+		if !bytes.Equal(k.Value, r) {
+			return fmt.Sprintf("term %d has a key that is not the stored key of that term", t)
+		}
+	}
+	if len(kr.keys) != int(kr.activeTerm) {
+		return fmt.Sprintf("%d keys for active term %d", len(kr.keys), kr.activeTerm)
+	}
+	return ""
+}
+
 // physRootName: which named key really opens the stored keyring (independent GCM open)
 func (c *c10Case) physRootName(data map[string][]byte) string {
 	v, ok := data[c.pfx+KeyringPath]
@@ -682,6 +732,27 @@ func (c *c10Case) op(who string, f ...string) string {
 			if err != nil {
 				return c10Err(err)
 			}
+			if !did && !c.faulted && x.keyring != nil {
+				// fixpoint of the upgrade walk: every entry written under a term up to the walker's active term
+				// must read back on it with its last value
+				var ks []string
+				for k := range c.shadow {
+					ks = append(ks, k)
+				}
+				sort.Strings(ks)
+				for _, k := range ks {
+					rec := pre[k]
+					if len(rec) < 4 || binary.BigEndian.Uint32(rec[:4]) > x.keyring.activeTerm {
+						continue
+					}
+					e, gerr := x.Get(ctx, k)
+					if gerr != nil || e == nil || vh.Hex(e.Value) != c.shadow[k] {
+						viol = fmt.Sprintf("entry %s written under term %d is not readable on barrier %s after its upgrade walk reached term %d#standby-upgrade-path-diverges",
+							k, binary.BigEndian.Uint32(rec[:4]), who, x.keyring.activeTerm)
+						break
+					}
+				}
+			}
 			return fmt.Sprintf("ok:%v:%d", did, t)
 		case "rmupgrade":
 			var t uint32
@@ -761,8 +832,35 @@ func (c *c10Case) op(who string, f ...string) string {
 			viol = "the stored keyring no longer opens with any root key the operator supplied"
 			c.dead = true
 		}
+		// P10 (no storage fault in the case): the keyring a barrier holds is a PREFIX of the stored keyring — terms
+		// 1..active without a gap, each with the stored key of that term (compared by key bytes, the stored keyring
+		// opened independently).  A standby that walked the upgrade path must not skip or mis-key a term.
+		if viol == "" && !c.faulted {
+			if ref := c.storedTerms(post); ref != nil {
+				for _, wb := range []struct {
+					n string
+					b *AESGCMBarrier
+				}{{"a", c.a}, {"b", c.b}} {
+					if d := c10PrefixDiff(wb.b.keyring, ref); d != "" {
+						viol = "the keyring of barrier " + wb.n + " is not a prefix of the stored keyring: " + d + "#" +
+							map[string]string{"a": "active-keyring-diverges", "b": "standby-upgrade-path-diverges"}[wb.n]
+						break
+					}
+				}
+			}
+		}
 	}
 	c.lastOp = f[0]
+	c.hist = append(c.hist, who+" "+strings.Join(f, " "))
+	if viol != "" && strings.Contains(viol, "-diverges") {
+		// put the concrete history into the message, in front of the signature
+		parts := strings.SplitN(viol, "#", 2)
+		h := c.hist
+		if len(h) > 40 {
+			h = h[len(h)-40:]
+		}
+		viol = parts[0] + " | history: " + strings.Join(h, "; ") + "#" + parts[1]
+	}
 	if viol != "" {
 		res += "!VIOL:" + viol
 	}
@@ -1063,9 +1161,9 @@ func c10RunCase(t *testing.T, out *vh.Out, rng *vh.Rand, idx int) {
 			c.dump()
 		case r < 85:
 			// the standby
-			sel := rng.Intn(12)
+			sel := rng.Intn(13)
 			if sel > 8 {
-				sel = []int{3, 8, 8}[sel-9]
+				sel = []int{3, 8, 8, 9}[sel-9]
 			}
 			switch sel {
 			case 0:
@@ -1084,6 +1182,33 @@ func c10RunCase(t *testing.T, out *vh.Out, rng *vh.Rand, idx int) {
 				c.op("b", "seal")
 			case 7:
 				c.op("b", "keyinfo")
+			case 9:
+				// LATE upgrade entries (RotateBarrierKey only holds a read lock between Rotate and CreateUpgrade):
+				// Rotate(N+1), Rotate(N+2), CreateUpgrade(N+1), CreateUpgrade(N+2), a write under each term, then the
+				// standby (at term N) walks with CheckUpgrade only and must read all three entries
+				if c.a.keyring != nil && !c.a.sealed && curRoot() != "?" {
+					c.op("b", "seal")
+					c.op("b", "unseal", curRoot())
+					c.op("a", "put", "d/a", val())
+					r1 := c.op("a", "rotate")
+					c.op("a", "put", "d/b", val())
+					r2 := c.op("a", "rotate")
+					c.op("a", "put", "d/c", val())
+					if strings.HasPrefix(r1, "ok:") && strings.HasPrefix(r2, "ok:") {
+						c.op("a", "mkupgrade", strings.TrimPrefix(r1, "ok:"))
+						c.op("a", "mkupgrade", strings.TrimPrefix(r2, "ok:"))
+						c.dump()
+						for k := 0; k < 8 && !c.dead; k++ {
+							if r := c.op("b", "chkupgrade"); !strings.HasPrefix(r, "ok:true") {
+								break
+							}
+						}
+						for _, k := range []string{"d/a", "d/b", "d/c"} {
+							c.op("b", "get", k)
+						}
+						c.cmp(false)
+					}
+				}
 			case 8:
 				// the complete upgrade walk of performKeyUpgrades, then P7
 				if c.b.sealed {
